@@ -7,6 +7,7 @@ pub mod enc;
 pub mod abs;
 pub mod corr;
 pub mod cx;
+pub mod num;
 pub mod oracle;
 pub mod props;
 pub mod rng;
@@ -18,7 +19,9 @@ use std::time::{Duration, Instant};
 
 fn driver(prop: &str) -> Option<(&'static str, fn(&mut Cx, &mut Rng) -> R)> {
     Some(match prop {
+        "C08" => ("C08", props::c08::case),
         "C09" => ("C09", props::c09::case),
+        "C10" => ("C10", props::c10::case),
         _ => return None,
     })
 }
